@@ -25,6 +25,8 @@ pub trait Entry {
     fn model<'a>(v: &Self::Val<'a>) -> Option<Item>;
     /// For borrowing types: does the decoded value point into `input`?
     fn borrows_from<'a>(_v: &Self::Val<'a>, _input: &'a [u8]) -> bool { true }
+    /// A class label for representation-dependent values (physical layout that `==` does not see).
+    fn repr_class<'a>(_v: &Self::Val<'a>) -> Option<&'static str> { None }
 }
 
 /// Hash of an encoding for the distinct-case count; hash-randomised collections serialise in a per-process
@@ -193,7 +195,47 @@ owned!(EVecString, "Vec<String>", Vec<String>, INDEF_OK = true);
 owned!(EVecOptTuple, "Vec<Option<(u8,String)>>", Vec<Option<(u8, String)>>);
 owned!(EVecVecI32, "Vec<Vec<i32>>", Vec<Vec<i32>>, INDEF_OK = true);
 owned!(EVecF64, "Vec<f64>", Vec<f64>, INDEF_OK = true);
-owned!(EVecDequeI16, "VecDeque<i16>", VecDeque<i16>, INDEF_OK = true);
+
+/// Build a deque holding `xs` in order with a chosen *physical* layout of the ring buffer (`Clone` and `collect`
+/// always yield a contiguous buffer, which would leave the wrapped-around case of the Encode impl unexercised).
+/// mode 0: contiguous; 1: `xs[k..]` pushed at the back, then `xs[..k]` pushed at the front (head wraps to the end of
+/// the allocation); 2: sliding window (`k` place-holders popped from the front of a full buffer, the last `k`
+/// elements pushed behind the physical end).
+pub fn deque_with_layout<T: Clone>(xs: &[T], k: usize, mode: u8) -> VecDeque<T> {
+    let n = xs.len();
+    let k = k.min(n);
+    match mode {
+        1 => { let mut d = VecDeque::new(); for x in &xs[k ..] { d.push_back(x.clone()) } for x in xs[.. k].iter().rev() { d.push_front(x.clone()) } d }
+        2 if n > 0 => {
+            let mut d = VecDeque::with_capacity(n);
+            for _ in 0 .. k { d.push_back(xs[0].clone()) }
+            for x in &xs[.. n - k] { d.push_back(x.clone()) }
+            for _ in 0 .. k { d.pop_front(); }
+            for x in &xs[n - k ..] { d.push_back(x.clone()) }
+            d
+        }
+        _ => xs.iter().cloned().collect()
+    }
+}
+
+macro_rules! deque_entry {
+    ($id:ident, $name:expr, $t:ty) => {
+        pub struct $id;
+        impl Entry for $id {
+            const NAME: &'static str = $name;
+            const INDEF_OK: bool = true;
+            type Seed = (Vec<$t>, usize, u8);
+            type Val<'a> = VecDeque<$t>;
+            fn seed(g: &mut Gen) -> Self::Seed { let v = <Vec<$t> as Arb>::arb(g); let k = g.below(v.len() + 1); (v, k, g.below(3) as u8) }
+            fn view<'a>(s: &'a Self::Seed) -> VecDeque<$t> { deque_with_layout(&s.0, s.1, s.2) }
+            fn same<'a, 'b>(a: &VecDeque<$t>, b: &VecDeque<$t>) -> bool { Same::same(a, b) }
+            fn model<'a>(v: &VecDeque<$t>) -> Option<Item> { Model::model(v) }
+            fn repr_class<'a>(v: &VecDeque<$t>) -> Option<&'static str> { Some(if v.as_slices().1.is_empty() { concat!($name, "/contiguous") } else { concat!($name, "/wrapped") }) }
+        }
+    }
+}
+deque_entry!(EVecDequeI16, "VecDeque<i16>", i16);
+deque_entry!(EVecDequeString, "VecDeque<String>", String);
 owned!(ELinkedListU32, "LinkedList<u32>", LinkedList<u32>, INDEF_OK = true);
 owned!(EBinaryHeapU16, "BinaryHeap<u16>", BinaryHeap<u16>, UNORDERED = true, INDEF_OK = true);
 owned!(EBTreeSetI64, "BTreeSet<i64>", BTreeSet<i64>, INDEF_OK = true);
@@ -242,10 +284,10 @@ impl Entry for ERefStr {
 pub struct ECowStr;
 impl Entry for ECowStr {
     const NAME: &'static str = "Cow<str>";
-    type Seed = String;
+    type Seed = (String, bool);
     type Val<'a> = Cow<'a, str>;
-    fn seed(g: &mut Gen) -> String { g.string(80) }
-    fn view<'a>(s: &'a String) -> Cow<'a, str> { Cow::Borrowed(s.as_str()) }
+    fn seed(g: &mut Gen) -> (String, bool) { (g.string(80), g.bool()) }
+    fn view<'a>(s: &'a (String, bool)) -> Cow<'a, str> { if s.1 { Cow::Owned(s.0.clone()) } else { Cow::Borrowed(s.0.as_str()) } }
     fn same<'a, 'b>(a: &Cow<'a, str>, b: &Cow<'b, str>) -> bool { a.as_ref() == b.as_ref() }
     fn model<'a>(v: &Cow<'a, str>) -> Option<Item> { Some(Item::text(v)) }
 }
@@ -265,10 +307,10 @@ impl Entry for ERefByteSlice {
 pub struct ECowByteSlice;
 impl Entry for ECowByteSlice {
     const NAME: &'static str = "Cow<ByteSlice>";
-    type Seed = Vec<u8>;
+    type Seed = (Vec<u8>, bool);
     type Val<'a> = Cow<'a, ByteSlice>;
-    fn seed(g: &mut Gen) -> Vec<u8> { g.bytes(300) }
-    fn view<'a>(s: &'a Vec<u8>) -> Cow<'a, ByteSlice> { Cow::Borrowed(<&ByteSlice>::from(s.as_slice())) }
+    fn seed(g: &mut Gen) -> (Vec<u8>, bool) { (g.bytes(300), g.bool()) }
+    fn view<'a>(s: &'a (Vec<u8>, bool)) -> Cow<'a, ByteSlice> { if s.1 { Cow::Owned(ByteVec::from(s.0.clone())) } else { Cow::Borrowed(<&ByteSlice>::from(s.0.as_slice())) } }
     fn same<'a, 'b>(a: &Cow<'a, ByteSlice>, b: &Cow<'b, ByteSlice>) -> bool { a.as_ref()[..] == b.as_ref()[..] }
     fn model<'a>(v: &Cow<'a, ByteSlice>) -> Option<Item> { Some(Item::bytes(v.as_ref())) }
 }
@@ -396,7 +438,7 @@ macro_rules! for_each_entry {
             $mac!(EUnit), $mac!(EPhantom), $mac!(ETuple1), $mac!(ETuple2), $mac!(ETuple3), $mac!(ETuple4), $mac!(ETuple5), $mac!(ETuple6), $mac!(ETuple7), $mac!(ETuple8), $mac!(ETuple9), $mac!(ETuple10), $mac!(ETuple11), $mac!(ETuple12), $mac!(ETuple13), $mac!(ETuple14), $mac!(ETuple15), $mac!(ETuple16),
             $mac!(EArr0), $mac!(EArr1), $mac!(EArr3), $mac!(EArrOpt3), $mac!(EArrStr2), $mac!(EArr32), $mac!(EArrVec2),
             $mac!(EVecU8), $mac!(EVecU64), $mac!(EVecString), $mac!(EVecOptTuple), $mac!(EVecVecI32), $mac!(EVecF64),
-            $mac!(EVecDequeI16), $mac!(ELinkedListU32), $mac!(EBinaryHeapU16), $mac!(EBTreeSetI64), $mac!(EHashSetU16), $mac!(EHashSetString),
+            $mac!(EVecDequeI16), $mac!(EVecDequeString), $mac!(ELinkedListU32), $mac!(EBinaryHeapU16), $mac!(EBTreeSetI64), $mac!(EHashSetU16), $mac!(EHashSetString),
             $mac!(EBTreeMapU8U8), $mac!(EBTreeMapStrVec), $mac!(EHashMapU32Str), $mac!(EHashMapStrOptBool),
             $mac!(ERange), $mac!(ERangeFrom), $mac!(ERangeTo), $mac!(ERangeToIncl), $mac!(ERangeIncl), $mac!(EBound),
             $mac!(EDuration), $mac!(ESystemTime), $mac!(EIpAddr), $mac!(EIpv4), $mac!(EIpv6), $mac!(ESockAddr), $mac!(ESockAddrV4), $mac!(ESockAddrV6),
